@@ -212,4 +212,12 @@ def explore(jobs, check, prefix=(), limit=200000, min_depth=0):
             for alt in range(1, s.fanout[d]):
                 stack.append(pre + [0] * (d - len(pre)) + [alt])
     out["distinct"] = len(seen)
+    out["interleaved"] = sum(1 for t in seen if is_interleaved(t))
     return out
+
+
+def is_interleaved(trace):
+    """more thread switches than running the threads one after the other needs"""
+    tids = [t for t, _ in trace]
+    switches = sum(1 for a, b in zip(tids, tids[1:]) if a != b)
+    return switches > len(set(tids)) - 1
